@@ -82,6 +82,90 @@ Theorem key_eq_iff_without_instance : forall d1 d2,
 Proof. exact key_without_instance_eq_iff. Qed.
 Print Assumptions key_eq_iff_without_instance.
 
+(** ** Ancestors: exactly the chain of component prefixes, shortest first *)
+Theorem parents_spec : forall d comps,
+  valid_digest d -> d_inst d = join_slash comps -> Forall valid_component comps ->
+  get_parents (pack d) = Ok (map (fun p => pack (with_instance d (join_slash p))) (prefixes comps)).
+Proof. exact parents_spec_proof. Qed.
+Print Assumptions parents_spec.
+
+(** ** Totality: no input makes a parser panic (arbitrary byte strings) *)
+Theorem parse_total : forall s, parse_read_path s <> Panic /\ parse_write_path s <> Panic.
+Proof. exact parse_total_proof. Qed.
+Print Assumptions parse_total.
+
+Theorem instance_name_total : forall s, new_instance_name s <> Panic.
+Proof. exact instance_name_total_proof. Qed.
+Print Assumptions instance_name_total.
+
+Theorem compact_total : forall inst inp, new_digest_from_compact_binary inst inp <> Panic.
+Proof. exact compact_total_proof. Qed.
+Print Assumptions compact_total.
+
+(** ** Rejection, one statement per malformed class of the property *)
+Theorem reject_wrong_length : forall inst f h s,
+  N.of_nat (length h) <> 2 * snd f -> new_digest inst f h s = Err InvalidArgument.
+Proof. exact reject_wrong_hash_length. Qed.
+Print Assumptions reject_wrong_length.
+
+Theorem reject_non_hex : forall inst f h s c,
+  In c h -> lowerhex c = false -> new_digest inst f h s = Err InvalidArgument.
+Proof. exact reject_non_lowerhex. Qed.
+Print Assumptions reject_non_hex.
+
+Theorem reject_uppercase : forall c, 65 <= c <= 70 -> lowerhex c = false.
+Proof. exact uppercase_is_not_lowerhex. Qed.
+Print Assumptions reject_uppercase.
+
+Theorem reject_negative : forall inst f h s,
+  (s < 0)%Z -> new_digest inst f h s = Err InvalidArgument.
+Proof. exact reject_negative_size. Qed.
+Print Assumptions reject_negative.
+
+Theorem reject_non_numeric : forall s,
+  forallb is_digit (strip_sign s) = false -> parse_int s = None.
+Proof. exact reject_non_numeric_size. Qed.
+Print Assumptions reject_non_numeric.
+
+Theorem reject_overflowing : forall ds,
+  ds <> [] -> forallb is_digit ds = true -> 2 ^ 63 <= horner 0 ds -> parse_int ds = None.
+Proof. exact reject_overflowing_size. Qed.
+Print Assumptions reject_overflowing.
+
+Theorem accepted_size_is_int64 : forall s z, parse_int s = Some z -> (- 2 ^ 63 <= z < 2 ^ 63)%Z.
+Proof. exact parse_int_range. Qed.
+Print Assumptions accepted_size_is_int64.
+
+Theorem reject_reserved : forall comps c,
+  Forall (fun c => c <> []) comps -> In c comps -> In c c20_reserved ->
+  new_instance_name_from_components comps = Err InvalidArgument.
+Proof. exact reject_reserved_keyword. Qed.
+Print Assumptions reject_reserved.
+
+Theorem reject_redundant_slash :
+  (forall s, new_instance_name (slash :: s) = Err InvalidArgument) /\
+  (forall s, new_instance_name (s ++ [slash]) = Err InvalidArgument) /\
+  (forall a b, new_instance_name (a ++ slash :: slash :: b) = Err InvalidArgument).
+Proof. exact reject_redundant_slashes. Qed.
+Print Assumptions reject_redundant_slash.
+
+Theorem reject_unknown_fn : forall e,
+  get_bare_function e 0 = None -> get_digest_function e 0 = Err InvalidArgument.
+Proof. exact reject_unknown_function. Qed.
+Print Assumptions reject_unknown_fn.
+
+Theorem reject_unknown_comp : forall header name rest,
+  validate_components header = Ok tt -> compressor_by_name name = None ->
+  parse_common header (c20_compressed_blobs :: name :: rest) = Err Unimplemented.
+Proof. exact reject_unknown_compressor. Qed.
+Print Assumptions reject_unknown_comp.
+
+Theorem reject_truncated : forall s,
+  ((length (fields_by_slash s) < 3)%nat -> parse_read_path s = Err InvalidArgument) /\
+  ((length (fields_by_slash s) < 5)%nat -> parse_write_path s = Err InvalidArgument).
+Proof. exact reject_truncated_paths. Qed.
+Print Assumptions reject_truncated.
+
 (** ** Digest sets: sorted (Go string order, strictly: hence duplicate-free) and equal to the
     mathematical sets.  [sorted l] = StronglySorted by [bltb]. *)
 Theorem build_spec : forall l,
